@@ -188,6 +188,10 @@ func progs() []prog {
 		// long lists (13 and 21 keys, several per shard): library sorts change algorithm above 12 elements
 		{name: "multi/Locks[1..13]|Locks[1,4]", multi: true, threads: [][]step{{W(1, 2, 3, 4, 5, 6, 7, 8, 9, 10, 11, 12, 13)}, {W(1, 4)}}, pb: [2]int{1, 2}},
 		{name: "multi/Locks[1..21]|Locks[2,8,20]|RLocks[5,11]", multi: true, threads: [][]step{{W(1, 2, 3, 4, 5, 6, 7, 8, 9, 10, 11, 12, 13, 14, 15, 16, 17, 18, 19, 20, 21)}, {W(2, 8, 20)}, {R(5, 11)}}, pb: [2]int{1, 1}},
+		// batches of 64 / 65 keys (every key the table tracks) released while another caller waits on one of them
+		{name: "multi/Locks[1..64]|Lock(5)|Lock(5)", multi: true, threads: [][]step{{W(seqKeys(64)...)}, {W(5)}, {W(5)}}, pb: [2]int{1, 1}},
+		{name: "multi/Locks[1..65]|RLock(7)|Lock(7)", multi: true, threads: [][]step{{W(seqKeys(65)...)}, {R(7)}, {W(7)}}, pb: [2]int{1, 1}},
+		{name: "multi/RLocks[1..64]|Lock(9)|RLock(9)", multi: true, threads: [][]step{{R(seqKeys(64)...)}, {W(9)}, {R(9)}}, pb: [2]int{1, 1}},
 		{name: "multi/RLocks[1..13]|Locks[3,9]|Locks[1..13]", multi: true, threads: [][]step{{R(1, 2, 3, 4, 5, 6, 7, 8, 9, 10, 11, 12, 13)}, {W(3, 9)}, {W(1, 2, 3, 4, 5, 6, 7, 8, 9, 10, 11, 12, 13)}}, pb: [2]int{1, 1}},
 	}
 }
@@ -224,6 +228,14 @@ func manyHolders(m mkLocker, n int, pb [2]int) *mc.Scenario {
 				w.Failf("every lock was released but the locker retains %d per-key entr(ies)", e)
 			}
 		}}
+}
+
+func seqKeys(n int) []int {
+	o := make([]int, n)
+	for i := range o {
+		o[i] = i + 1
+	}
+	return o
 }
 
 func scenarios() []*mc.Scenario {
